@@ -32,6 +32,18 @@ def replay_trapz(col, case):
                                                                       observed=np.asarray(got).tolist()))
                 return
     chk("rank1", case["y1"], 0, case["r1"])
+    # a single-precision integrand on a double-precision coordinate with a LARGE offset (unix time, radius from the Earth's
+    # centre): the spacing lives in the coordinate's own precision
+    try:
+        big = x + 2.0 ** 31
+        got = integrate_column(np.array(case["y1"], dtype="float32"), big, axis=0)
+        col.count(1)
+        want = np.array(case["r1"], dtype=float) / 2.0
+        if np.shape(got) != want.shape or not np.all(np.abs(np.asarray(got, dtype=float) - want) <= 1e-6 * np.maximum(1.0, np.abs(want))):
+            col.violation("integrate_column-wrong-float32-on-offset-grid", dict(rep, offset="2^31", expected=want.tolist(),
+                                                                                observed=np.asarray(got, dtype=float).tolist()))
+    except Exception as ex:
+        col.violation("integrate_column-raises-" + type(ex).__name__, dict(rep, op="float32-offset-grid", observed=repr(ex)[:200]))
     # memory layout and views: Fortran-ordered arrays, a view with negative strides, inputs left untouched
     try:
         a3 = np.array(case["a3"], dtype=float)
